@@ -290,7 +290,7 @@ func runC15(c *Ctx) {
 		}
 	}
 	c.Meta(map[string]interface{}{
-		"rule": "every insertion entry point (single, Many with the offender at each position or none, Bulk with chunk sizes 1 and 2) x 0..2 pre-stored objects x 4 name classes x 4 configurations, with a collection type whose Validate accepts only what Transform followed by the schema's case transforms produce; a recorder inside the hooks captures, at every hook call, the number of file mutations and a hash of the complete handle. Oracles: Transform precedes Validate per object, Validate observes canonical case, nothing is modified before the last Validate of a call (single/Many), stored = transformed, invalid => ErrInvalidObject and invisible through All/Get/Search. Non-trivial = scenarios with an offender or a case-mixed name.",
+		"rule":      "every insertion entry point (single, Many with the offender at each position or none, Bulk with chunk sizes 1 and 2) x 0..2 pre-stored objects x 4 name classes x 4 configurations, with a collection type whose Validate accepts only what Transform followed by the schema's case transforms produce; a recorder inside the hooks captures, at every hook call, the number of file mutations and a hash of the complete handle. Oracles: Transform precedes Validate per object, Validate observes canonical case, nothing is modified before the last Validate of a call (single/Many), stored = transformed, invalid => ErrInvalidObject and invisible through All/Get/Search. Non-trivial = scenarios with an offender or a case-mixed name.",
 		"scenarios": len(scens), "configs": cfgs,
 	})
 }
